@@ -10,6 +10,13 @@ x cache on/off (with the cache on the request is repeated with the opposite scri
 table: seeded histories of 2-3 prompts repeated with changing scripts, clock moved to just
 below / at / above the cache TTL, backward jumps, clear_cache.
 
+Every 5th run beyond the table is a threads plan (opsim.sched.Sched, decision at every line of
+loops.py and every lock operation): sequential pre-phase, 2-3 tasks x 1-2 run() calls overlapping on
+the one loop (half of them under an explicit one- or two-pre-emption schedule, the rest under seeded
+strategies), then every prompt asked once more after quiescence.  Table and token clauses are about
+one request and its own agents' verdicts, so they are judged per request under any interleaving; a
+cache reply may repeat any fresh reply to the same prompt that was invoked before it returned.
+
 Oracle (statement direction only): not blocked => the scripted verdicts satisfy the gate logic;
 token => assessor said PERMIT, hash of exactly this prompt, issuer is the assessor; a reply for
 which no agent was consulted is a cache reply: it must have an original for this very prompt and
@@ -20,8 +27,8 @@ from __future__ import annotations
 import hashlib
 
 from opsim import seams
-from opsim.core import CLOCK, EPOCH
-from opsim.sched import SeqTracer
+from opsim.core import CLOCK, EPOCH, derive, HarnessError
+from opsim.sched import SeqTracer, Sched, SimLock
 from opsim.util import call, weighted
 
 from operon_ai.topology.loops import CoherentFeedForwardLoop, GateLogic
@@ -30,8 +37,9 @@ from operon_ai.state.metabolism import ATP_Store
 
 ID = "C07"
 LEVEL = "fault_enumeration"
-ENGINE = "seq"
-RUNS = {"quick": 60_000, "thorough": 2_500_000}
+ENGINE = "seq+threads"
+THREADS_EVERY = 5      # beyond the table every 5th run index is a threads plan
+RUNS = {"quick": 50_000, "thorough": 1_500_000}
 LOGICS = ["AND", "OR", "MAJORITY", "UNANIMOUS", "EXECUTOR_PRIORITY", "ASSESSOR_PRIORITY"]
 BEHAVIOURS = ["EXECUTE", "PERMIT", "BLOCK", "FAILURE", "DEFER", "UNKNOWN", "raise:RuntimeError"]
 TABLE = len(LOGICS) * len(BEHAVIOURS) * len(BEHAVIOURS) * 2          # 588 = 294 cells x cache on/off
@@ -42,13 +50,17 @@ RULE = ("run i < 588 is the i-th cell of the complete table 6 gate logics x 7 ex
         "(shared 8-character prefixes, case/whitespace twins, empty, non-ASCII, long) with verdict scripts that change "
         "between repeats (incl. other exception types and adversarial unknown verdict strings), clock set to just "
         "below / at / above the cache TTL, backward jumps, clear_cache, and a family with the real BioAgents on a "
-        "starving budget; non-trivial = a cell or history that is not made of (AND, permit, permit) requests only; "
-        "distinct = distinct cell, or distinct (configuration, prompts, operation list)")
+        "starving budget; every 5th run beyond the table is a threads plan: 2-3 tasks x 1-2 run() calls (plus clock "
+        "advances / clear_cache) on one shared loop after a sequential pre-phase, under seeded schedules (serial, uniform, "
+        "sticky, pct, lock-biased) with a decision at every source line of loops.py and every lock operation, followed by "
+        "a sequential probe of every prompt after quiescence; non-trivial = a cell or history that is not made of "
+        "(AND, permit, permit) requests only, for threads plans a run with at least one pre-emption inside run(); "
+        "distinct = distinct cell, or distinct (configuration, prompts, operation lists)")
 COMPONENTS = {"real": ["operon_ai.topology.loops.CoherentFeedForwardLoop", "operon_ai.state.metabolism.ATP_Store",
                        "operon_ai.core.types.ApprovalToken/ActionProtein/Signal",
                        "operon_ai.core.agent.BioAgent (real-agent family only, behind a recording spy)"],
               "stub": ["executor / assessor agents (scripted fakes)", "datetime.now (virtual clock)",
-                       "threading.Lock (SimLock)"]}
+                       "threading.Lock (SimLock)", "the OS scheduler (seeded line-granularity scheduler, threads family)"]}
 ASSUMPTIONS = [
     "only the direction the statement gives is checked: not blocked => table satisfied (pairs that satisfy a gate logic "
     "are not required to pass; MAJORITY, which the statement does not define, is read as 'both permit')",
@@ -61,10 +73,15 @@ ASSUMPTIONS = [
     "the original of a cache reply is the latest fresh reply to the same prompt (or the latest one in which no agent raised)",
     "hash binding is sha256(prompt)[:16] as pinned by the repo's own test",
     "exactly-at-TTL is not asserted; staleness is demanded only strictly after the TTL",
+    "threads family: pre-emption granularity is the source line of loops.py; the original of a cache reply is any fresh "
+    "reply to the same prompt invoked before the cache reply returned; the `cached` flag is not judged (the code shares "
+    "one result object between the original and its cache replies); staleness only from completed originals",
 ]
 EXPECT_PROBES = ("table_cell", "passed", "cache_hit", "cache_hit_script_changed", "ttl_expired_reconsult",
                  "ttl_just_below_hit", "token_attached", "agent_raised", "unknown_verdict",
-                 "prefix_sharing_prompts_cached", "real_agents", "second_agent_starved")
+                 "prefix_sharing_prompts_cached", "real_agents", "second_agent_starved",
+                 "threads_run", "overlapping_requests_different_prompts", "overlapping_requests_same_prompt",
+                 "cache_hit_on_concurrent_original", "post_probe_fresh", "preempted_while_holding_a_lock")
 
 KNOWN = ("EXECUTE", "PERMIT", "BLOCK", "FAILURE", "DEFER")
 EXEC_PERMITS = ("EXECUTE", "PERMIT")
@@ -134,6 +151,8 @@ def gen(rng, tier, i):
                            "budget": 1000},
                 "prompts": [rng.choice(POOL)], "cell": [logic, ez, ay, cache], "ops": ops}
 
+    if i % THREADS_EVERY == 0:
+        return _gen_threads(rng, tier)
     real = rng.random() < (0.06 if tier == "quick" else 0.12)
     cfg = {"logic": weighted(rng, [(2, "AND"), (2, "OR"), (1, "MAJORITY"), (1, "UNANIMOUS"), (2, "EXECUTOR_PRIORITY"),
                                    (2, "ASSESSOR_PRIORITY")]),
@@ -168,44 +187,159 @@ def gen(rng, tier, i):
     return {"config": cfg, "prompts": prompts, "ops": ops}
 
 
+STRATEGIES = [(1, {"kind": "serial"}), (2, {"kind": "uniform"}), (2, {"kind": "sticky", "p": 0.7}),
+              (3, {"kind": "sticky", "p": 0.9}), (2, {"kind": "sticky", "p": 0.97}), (3, {"kind": "pct", "d": 1, "est": 120}),
+              (3, {"kind": "pct", "d": 2, "est": 160}), (2, {"kind": "pct", "d": 3, "est": 200}),
+              (2, {"kind": "lock_biased", "k": 4})]
+
+
+def _few_preemptions(rng, plan):
+    """Half of the threads plans carry an explicit schedule instead of a seeded strategy: task a runs, is pre-empted
+    at its n-th decision point in favour of task b, which runs on (to completion unless pre-empted in turn after m
+    more decision points).  Most check-then-act races need exactly one or two pre-emptions at the right line;
+    drawing the line uniformly reaches each of them far more often than a random walk over all decisions."""
+    x = rng.random()
+    if x >= 0.5:
+        return
+    nt = len(plan["tasks"])
+    a = rng.randrange(nt)
+    b = rng.choice([t for t in range(nt) if t != a])
+    sw = [[0, a]] if a != 0 else []
+    n = rng.randrange(1, 70)
+    sw.append([n, b])
+    if x < 0.15:
+        sw.append([n + rng.randrange(1, 70), a if nt == 2 or rng.random() < 0.6 else rng.choice([t for t in range(nt) if t not in (a, b)])])
+    plan["config"]["strategy"] = {"kind": "replay", "preemptions": len(sw) - (1 if a != 0 else 0)}
+    plan["switches"] = sw
+
+
+def _gen_threads(rng, tier):
+    cfg = {"logic": weighted(rng, [(3, "AND"), (2, "OR"), (0.5, "MAJORITY"), (1, "UNANIMOUS"), (2, "EXECUTOR_PRIORITY"),
+                                   (2, "ASSESSOR_PRIORITY")]),
+           "cache": rng.random() < 0.65, "ttl": rng.choice([1.0, 60.0, 300.0]),
+           "breaker": "off" if rng.random() < 0.7 else "huge", "agents": "fake", "budget": 1000,
+           "strategy": dict(weighted(rng, STRATEGIES))}
+    if rng.random() < 0.4:
+        prompts = list(rng.choice(PREFIX_TWINS))
+        rng.shuffle(prompts)
+        prompts = prompts[:rng.choice([2, 3])]
+    else:
+        prompts = rng.sample(POOL, rng.choice([2, 3]))
+
+    def passing():
+        return [rng.choice(["EXECUTE", "EXECUTE", "PERMIT"]), "PERMIT"]
+
+    def req(pi):
+        return ["run", pi] + (passing() if rng.random() < 0.6 else [_verdict(rng, "e"), _verdict(rng, "a")])
+
+    pre = [req(rng.randrange(len(prompts))) for _ in range(rng.choice([0, 0, 1, 1, 2]))]
+    if pre and cfg["cache"] and rng.random() < 0.25:
+        pre.append(["clock", "adv", cfg["ttl"] + rng.choice([0.001, 1.0])])     # overlapping requests meet expired entries
+    ntasks = 2 if rng.random() < 0.75 else 3
+    same = rng.random() < 0.2          # everybody asks the same prompt
+    base = rng.randrange(len(prompts))
+    tasks = []
+    for t in range(ntasks):
+        ops = []
+        for _ in range(rng.choice([1, 1, 2])):
+            x = rng.random()
+            if x < 0.08:
+                ops.append(["clock", "adv", rng.choice([0.5, cfg["ttl"] / 2, cfg["ttl"] + 1.0])])
+            elif x < 0.12:
+                ops.append(["clear"])
+            pi = base if same else ((base + t) % len(prompts) if rng.random() < 0.8 else rng.randrange(len(prompts)))
+            ops.append(req(pi))
+        tasks.append(ops)
+    post = []
+    x = rng.random()
+    if cfg["cache"] and x < 0.45:
+        post.append(["clear"])
+    elif cfg["cache"] and x < 0.7:
+        post.append(["clock", "adv", cfg["ttl"] + 1.0])
+    order = list(range(len(prompts)))
+    rng.shuffle(order)
+    for pi in order:
+        post.append(["run", pi] + (passing() if rng.random() < 0.75 else [_verdict(rng, "e"), _verdict(rng, "a")]))
+    plan = {"family": "threads", "config": cfg, "prompts": prompts, "pre": pre, "tasks": tasks, "post": post}
+    _few_preemptions(rng, plan)
+    return plan
+
+
+def _op_lists(plan):
+    """[(path, list)] of every operation list of a plan (both families)."""
+    out = [((key,), plan[key]) for key in ("ops", "pre", "post") if isinstance(plan.get(key), list)]
+    out += [(("tasks", j), t) for j, t in enumerate(plan.get("tasks") or [])]
+    return out
+
+
+def _with(plan, path, ops):
+    new = dict(plan)
+    if len(path) == 1:
+        new[path[0]] = ops
+    else:
+        new["tasks"] = [list(t) for t in plan["tasks"]]
+        new["tasks"][path[1]] = ops
+    return new
+
+
 def simplify(plan):
     cfg = plan["config"]
-    used = sorted({op[1] for op in plan["ops"] if op[0] == "run"} | {op[2] for op in plan["ops"] if op[:2] == ["clock", "ttl"]})
+    if plan.get("family") == "threads":
+        if len(plan["tasks"]) > 2:
+            for j in range(len(plan["tasks"])):
+                yield {**plan, "tasks": [t for jj, t in enumerate(plan["tasks"]) if jj != j], "switches": []}
+        if cfg["cache"]:
+            yield {**plan, "config": {**cfg, "cache": False}}
+        if cfg["logic"] != "AND":
+            yield {**plan, "config": {**cfg, "logic": "AND"}}
+    for yielded in _simplify_ops(plan):
+        yield yielded
+
+
+def _simplify_ops(plan):
+    cfg = plan["config"]
+    lists = _op_lists(plan)
+    used = sorted({op[1] for _, ops in lists for op in ops if op[0] == "run"} |
+                  {op[2] for _, ops in lists for op in ops if op[:2] == ["clock", "ttl"]})
     used = [u for u in used if u < len(plan["prompts"])]
     if len(used) < len(plan["prompts"]):      # drop prompts no operation refers to
         remap = {u: j for j, u in enumerate(used)}
-        ops = []
-        for op in plan["ops"]:
-            op = list(op)
-            if op[0] == "run" and op[1] in remap:
-                op[1] = remap[op[1]]
-            elif op[:2] == ["clock", "ttl"] and op[2] in remap:
-                op[2] = remap[op[2]]
-            elif op[0] == "run" or op[:2] == ["clock", "ttl"]:
-                continue
-            ops.append(op)
-        yield {**plan, "prompts": [plan["prompts"][u] for u in used], "ops": ops}
+        new = {**plan, "prompts": [plan["prompts"][u] for u in used]}
+        for path, old in lists:
+            ops = []
+            for op in old:
+                op = list(op)
+                if op[0] == "run" and op[1] in remap:
+                    op[1] = remap[op[1]]
+                elif op[:2] == ["clock", "ttl"] and op[2] in remap:
+                    op[2] = remap[op[2]]
+                elif op[0] == "run" or op[:2] == ["clock", "ttl"]:
+                    continue
+                ops.append(op)
+            new = _with(new, path, ops)
+        yield new
     if cfg["breaker"] != "off":
         yield {**plan, "config": {**cfg, "breaker": "off"}}
     if cfg["ttl"] != 300.0:
         yield {**plan, "config": {**cfg, "ttl": 300.0}}
-    for j, op in enumerate(plan["ops"]):
-        if op[0] == "run":
-            for pos in (2, 3):
-                v = op[pos]
-                small = None
-                if v.startswith("raise:") and v != "raise:RuntimeError":
-                    small = "raise:RuntimeError"
-                elif cls(v) == "UNKNOWN" and v != "UNKNOWN":
-                    small = "UNKNOWN"
-                if small:
-                    ops = [list(o) for o in plan["ops"]]
-                    ops[j][pos] = small
-                    yield {**plan, "ops": ops}
-        if op[0] == "clock" and op[1] == "ttl" and op[3] not in (0.0, 1.0, -1.0):
-            ops = [list(o) for o in plan["ops"]]
-            ops[j][3] = 1.0 if op[3] > 0 else -1.0
-            yield {**plan, "ops": ops}
+    for path, old in lists:
+        for j, op in enumerate(old):
+            if op[0] == "run":
+                for pos in (2, 3):
+                    v = op[pos]
+                    small = None
+                    if v.startswith("raise:") and v != "raise:RuntimeError":
+                        small = "raise:RuntimeError"
+                    elif cls(v) == "UNKNOWN" and v != "UNKNOWN":
+                        small = "UNKNOWN"
+                    if small:
+                        ops = [list(o) for o in old]
+                        ops[j][pos] = small
+                        yield _with(plan, path, ops)
+            if op[0] == "clock" and op[1] == "ttl" and op[3] not in (0.0, 1.0, -1.0):
+                ops = [list(o) for o in old]
+                ops[j][3] = 1.0 if op[3] > 0 else -1.0
+                yield _with(plan, path, ops)
 
 
 def coverage_extra(tier):
@@ -215,50 +349,69 @@ def coverage_extra(tier):
 
 
 # ----------------------------------------------------------------------------------------- fakes
-class Fake:
-    """Scripted agent: gives the verdict the current request carries, if it is asked at all."""
+class Req:
+    """What one run() call of one task saw of the agents."""
+    __slots__ = ("ez_script", "ay_script", "ez", "ay", "asked_e", "asked_a")
 
-    def __init__(self, name, role, k):
-        self.name, self.role, self.k = name, role, k
-        self.calls = 0
-        self.script = None
-        self.gave = None
+    def __init__(self, ez, ay):
+        self.ez_script, self.ay_script = ez, ay
+        self.ez = self.ay = None
+        self.asked_e = self.asked_a = 0
+
+
+class Fake:
+    """Scripted agent: gives the verdict the calling task's current request carries, if it is asked at all."""
+
+    def __init__(self, name, role, w):
+        self.name, self.role, self.w = name, role, w
 
     def express(self, signal):
-        self.calls += 1
-        v = self.script
-        self.gave = v
-        self.k.ev("express", [self.role, v])
+        w = self.w
+        r = w.cur_req[w.who()]
+        k = w.k
+        if self.role == "executor":
+            r.asked_e += 1
+            v = r.ez = r.ez_script
+        else:
+            r.asked_a += 1
+            v = r.ay = r.ay_script
+        k.ev("express", [self.role, v])
         if v.startswith("raise:"):
-            self.k.fault("collab_raise")
+            k.fault("collab_raise")
             raise EXC[v[6:]]("scripted failure of " + self.role)
         if v not in KNOWN:
-            self.k.fault("collab_adversarial_value")
+            k.fault("collab_adversarial_value")
         return ActionProtein(v, f"{self.role} says {v!r}", 0.9, source_agent=self.name)
 
 
 class Spy:
-    """Recording wrapper around a real BioAgent (real-agent family)."""
+    """Recording wrapper around a real BioAgent (real-agent family, sequential only)."""
 
-    def __init__(self, agent, role, k):
-        self.agent, self.role, self.k = agent, role, k
+    def __init__(self, agent, role, w):
+        self.agent, self.role, self.w = agent, role, w
         self.name = agent.name
-        self.calls = 0
-        self.script = None
-        self.gave = None
         self._real = agent.express
         agent.express = self.express
 
     def express(self, signal):
-        self.calls += 1
+        w = self.w
+        r = w.cur_req[w.who()]
+        if self.role == "executor":
+            r.asked_e += 1
+        else:
+            r.asked_a += 1
         try:
             out = self._real(signal)
+            v = str(out.action_type)
         except Exception as e:
-            self.gave = "raise:" + type(e).__name__
-            self.k.ev("express", [self.role, self.gave])
+            v = "raise:" + type(e).__name__
             raise
-        self.gave = str(out.action_type)
-        self.k.ev("express", [self.role, self.gave])
+        finally:
+            if self.role == "executor":
+                r.ez = v
+            else:
+                r.ay = v
+            w.k.ev("express", [self.role, v])
         return out
 
 
@@ -277,184 +430,332 @@ def tok_of(res):
     return [getattr(t, "request_hash", None), getattr(t, "issuer", None)]
 
 
+FIELDS = ("blocked", "success", "action", "token")
+
+
+# ----------------------------------------------------------------------------------------- world + oracle
+class World:
+    def __init__(self, plan, k, sched=None):
+        self.plan, self.k, self.sched = plan, k, sched
+        cfg = self.cfg = plan["config"]
+        self.logic = cfg["logic"]
+        self.prompts = plan["prompts"]
+        self.budget = ATP_Store(budget=cfg["budget"], silent=True)
+        self.loop = CoherentFeedForwardLoop(
+            budget=self.budget, gate_logic=GateLogic[self.logic], enable_circuit_breaker=(cfg["breaker"] != "off"),
+            failure_threshold=10 ** 9, recovery_timeout_seconds=60.0, enable_cache=cfg["cache"],
+            cache_ttl_seconds=cfg["ttl"], silent=True)
+        seams.assert_sim_lock(self.loop)
+        self.cur_req = {}
+        if cfg["agents"] == "real":
+            self.ex, self.asr = Spy(self.loop.executor, "executor", self), Spy(self.loop.assessor, "assessor", self)
+            k.probe("real_agents")
+        else:
+            self.ex, self.asr = Fake("Z-exec", "executor", self), Fake("Y-risk", "assessor", self)
+            self.loop.executor, self.loop.assessor = self.ex, self.asr
+        self.issuer = self.asr.name
+        self.ttl_us = int(round(cfg["ttl"] * 1_000_000))
+        self.orig = {}        # prompt text -> candidate originals a cache reply may repeat
+        self.trivial = True
+        self.tick = 0         # harness event counter (invocations / returns), for the threads family
+        self.stop = False
+
+    def who(self):
+        s = self.sched
+        return s.cur.name if (s is not None and s.cur is not None) else "main"
+
+    # ------------------------------------------------------------------ one request: invoke
+    def invoke(self, op, tracer=None):
+        """Call run() for a request op; returns a record dict (judged by the callers)."""
+        k = self.k
+        prompt = self.prompts[op[1]]
+        r = Req(op[2], op[3])
+        me = self.who()
+        self.cur_req[me] = r
+        self.tick += 1
+        rec = {"pi": op[1], "prompt": prompt, "inv": self.tick, "t_inv": CLOCK.now, "script": [op[2], op[3]]}
+        out = call(self.loop.run, prompt, tracer=tracer)
+        self.tick += 1
+        ez, ay = (r.ez if r.asked_e else None), (r.ay if r.asked_a else None)
+        rec.update(ret=self.tick, t_ret=CLOCK.now, ez=ez, ay=ay, fresh=bool(r.asked_e or r.asked_a), out=out,
+                   raised=[v for v in (ez, ay) if v and v.startswith("raise:")],
+                   site=f"{self.logic}:{cls(ez)}x{cls(ay)}", sat=sat(self.logic, ez, ay))
+        if rec["raised"]:
+            k.probe("agent_raised")
+        if any(v is not None and cls(v) == "UNKNOWN" for v in (ez, ay)):
+            k.probe("unknown_verdict")
+        if self.cfg["agents"] == "real" and r.asked_a and ay == "FAILURE" and ez != "FAILURE":
+            k.probe("second_agent_starved")
+            k.fault("budget_starve")
+        if out.kind == "ok":
+            res = out.value
+            rec["snap"] = {"blocked": bool(res.blocked), "success": bool(res.success), "action": str(res.action),
+                           "token": tok_of(res)}
+            rec["flagged"] = bool(getattr(res, "cached", False))
+            rec["action"] = str(res.action)
+        return rec
+
+    def returned(self, rec, where):
+        """Clause `returns`: False if the call did not come back with a LoopResult."""
+        k, out = self.k, rec["out"]
+        if out.kind == "ok":
+            return True
+        if out.kind == "deadlock":
+            k.violation("returns", "self_deadlock", self.logic, "; ".join(out.exc.chain))
+        elif out.kind == "step_budget":
+            k.violation("returns", "no_return_within_step_budget", self.logic)
+        elif rec["raised"]:
+            k.violation("table", "agent_exception_escaped", rec["site"], repr(out.exc)[:160])
+        else:
+            k.violation("returns", f"raised:{type(out.exc).__name__}", rec["site"], repr(out.exc)[:160])
+        return False
+
+    # ------------------------------------------------------------------ per-request clauses (any engine)
+    def judge_fresh(self, rec, check_flag=True):
+        k, snap, prompt = self.k, rec["snap"], rec["prompt"]
+        ez, ay, site = rec["ez"], rec["ay"], rec["site"]
+        if not (self.logic == "AND" and ez in EXEC_PERMITS and ay == "PERMIT"):
+            self.trivial = False
+        if not snap["blocked"]:
+            k.probe("passed")
+            if not rec["sat"]:
+                k.violation("table", "passed_without_keys", site,
+                            f"prompt={prompt[:30]!r} executor={ez} assessor={ay} action={snap['action']}")
+            elif any(v is None or cls(v) in ("UNKNOWN", "DEFER") for v in (ez, ay)):
+                k.probe("unknown_or_defer_beside_a_pass")
+        tok = snap["token"]
+        if tok is not None:
+            k.probe("token_attached")
+            want = hashlib.sha256(prompt.encode()).hexdigest()[:16]
+            if ay != "PERMIT":
+                k.violation("token", "token_without_permit", site, f"token={tok}")
+            if tok[0] != want:
+                k.violation("token", "token_unbound", "fresh", f"{tok[0]} != sha256({prompt[:30]!r})[:16]={want}")
+            if tok[1] != self.issuer:
+                k.violation("token", "wrong_issuer", "fresh", f"{tok[1]!r} != {self.issuer!r}")
+        if check_flag and rec["flagged"]:
+            k.violation("cache", "agents_consulted_for_cached_reply", "flag")
+
+    def judge_cached(self, rec, cands, age_of):
+        """A reply for which no agent was consulted.  cands: originals it may repeat; age_of(c) -> lower bound of its age in us."""
+        k, snap, prompt, cfg = self.k, rec["snap"], rec["prompt"], self.cfg
+        k.probe("cache_hit")
+        tok = snap["token"]
+        want = hashlib.sha256(prompt.encode()).hexdigest()[:16]
+        if not cfg["cache"]:
+            k.violation("cache", "reply_without_consulting_agents_while_cache_disabled", "disabled")
+        if not cands:
+            if not snap["blocked"]:
+                k.violation("table", "passed_without_keys", f"{self.logic}:nonexnone",
+                            f"prompt={prompt[:30]!r} never answered before, no agent consulted, action={snap['action']}")
+            k.violation("cache", "cached_reply_without_original", "lookup",
+                        f"prompt={prompt[:30]!r} flagged_cached={rec['flagged']} reply={snap}")
+            if tok is not None and tok[0] != want:
+                k.violation("token", "token_unbound", "cached", f"{tok[0]} != sha256({prompt[:30]!r})[:16]={want}")
+            return
+        match = [c for c in cands if all(c["snap"][f] == snap[f] for f in FIELDS)]
+        if not match:
+            # report against the closest candidate, so that the differing field names the damage, not the history
+            order = ("blocked", "action", "success", "token")
+            c = min((c["snap"] for c in reversed(cands)), key=lambda cs: sum(cs[f] != snap[f] for f in order))
+            field = next(f for f in order if c[f] != snap[f])
+            k.violation("cache", "cache_verdict_differs", field, f"prompt={prompt[:30]!r} original={c} cached={snap}")
+            match = cands
+        elif cfg["agents"] == "fake" and sat(self.logic, *rec["script"]) != match[-1]["sat"]:
+            k.probe("cache_hit_script_changed")
+        if not snap["blocked"] and not any(c["sat"] for c in match):
+            k.violation("table", "passed_without_keys", f"{self.logic}:cached", f"prompt={prompt[:30]!r}")
+        if tok is not None:
+            if not any(c["ay"] == "PERMIT" for c in match):
+                k.violation("token", "token_without_permit", f"{self.logic}:cached", f"token={tok}")
+            if tok[0] != want:
+                k.violation("token", "token_unbound", "cached", f"{tok[0]} != sha256({prompt[:30]!r})[:16]={want}")
+            if tok[1] != self.issuer:
+                k.violation("token", "wrong_issuer", "cached", f"{tok[1]!r} != {self.issuer!r}")
+        age = min(age_of(c) for c in match)
+        if age > self.ttl_us:
+            k.violation("cache", "stale_after_ttl", "ttl", f"age>={age}us ttl={self.ttl_us}us")
+        elif age > 0 and self.ttl_us - age <= 1_000_000:
+            k.probe("ttl_just_below_hit")
+
+    # ------------------------------------------------------------------ sequential operations
+    def seq_op(self, op, tr):
+        """One operation with nobody else running (sequential family, pre- and post-phase).  False = stop the run."""
+        k, cfg, prompts, orig = self.k, self.cfg, self.prompts, self.orig
+        name = op[0]
+        if name == "clock":
+            if op[1] == "ttl":
+                if op[2] >= len(prompts):
+                    return True
+                clean = [c for c in orig.get(prompts[op[2]], []) if not c["raised"]]
+                if not clean:
+                    return True
+                target = clean[-1]["t_ret"] + cfg["ttl"] + op[3]
+                k.fault("clock_boundary")
+            else:
+                target = CLOCK.now + op[2]
+            dt = target - CLOCK.now
+            set_clock(target)
+            k.fault("clock_backward" if dt < 0 else "clock_forward")
+            k.ev("clock", us(CLOCK.now))
+            return True
+        if name == "clear":
+            out = call(self.loop.clear_cache, tracer=tr)
+            k.ev("clear", out.brief())
+            if not out.ok:
+                k.violation("returns", out.kind, "clear_cache")
+                return False
+            # the statement says nothing about clear_cache: it is only a perturbation of the history
+            return True
+        if op[1] >= len(prompts):
+            return True
+        rec = self.invoke(op, tracer=tr)
+        if not self.returned(rec, "seq"):
+            k.ev("run", [op[1], rec["ez"], rec["ay"], rec["out"].brief()])
+            return False
+        prompt, now = rec["prompt"], rec["t_inv"]
+        k.ev("run", [op[1], rec["ez"], rec["ay"], rec["fresh"], rec["flagged"], rec["snap"]])
+        if rec["fresh"]:
+            self.judge_fresh(rec)
+            old = orig.get(prompt, [])
+            if cfg["cache"] and any(not c["raised"] and us(now) - us(c["t_ret"]) >= self.ttl_us for c in old):
+                k.probe("ttl_expired_reconsult")
+            # what a cache may hold from now on: this reply, or (if an agent raised) still an older clean one
+            orig[prompt] = ([c for c in old if not c["raised"]] if rec["raised"] else []) + [rec]
+            if not rec["raised"] and cfg["cache"]:
+                for other, cs in orig.items():
+                    if other != prompt and other[:8] == prompt[:8] and any(not c["raised"] for c in cs):
+                        k.probe("prefix_sharing_prompts_cached")
+        else:
+            self.judge_cached(rec, orig.get(prompt, []), lambda c: us(now) - us(c["t_ret"]))
+        return True
+
+
 # ----------------------------------------------------------------------------------------- run
+SCOPE = None
+
+
 def run(plan, k):
-    cfg = plan["config"]
-    logic = cfg["logic"]
-    prompts = plan["prompts"]
-    budget = ATP_Store(budget=cfg["budget"], silent=True)
-    loop = CoherentFeedForwardLoop(budget=budget, gate_logic=GateLogic[logic],
-                                   enable_circuit_breaker=(cfg["breaker"] != "off"), failure_threshold=10 ** 9,
-                                   recovery_timeout_seconds=60.0, enable_cache=cfg["cache"],
-                                   cache_ttl_seconds=cfg["ttl"], silent=True)
-    seams.assert_sim_lock(loop)
-    if cfg["agents"] == "real":
-        ex, asr = Spy(loop.executor, "executor", k), Spy(loop.assessor, "assessor", k)
-        k.probe("real_agents")
-    else:
-        ex, asr = Fake("Z-exec", "executor", k), Fake("Y-risk", "assessor", k)
-        loop.executor, loop.assessor = ex, asr
-    issuer = asr.name
-    ttl_us = int(round(cfg["ttl"] * 1_000_000))
+    global SCOPE
+    if SCOPE is None:
+        SCOPE = [seams.src("operon_ai/topology/loops.py")]
+    if plan.get("family") == "threads":
+        return _run_threads(plan, k)
+    w = World(plan, k)
     cell = plan.get("cell")
     if cell:
         k.probe("table_cell")
         k.key = ["cell"] + list(cell)
     else:
-        k.key = [cfg, prompts, plan["ops"]]
-
-    orig = {}        # prompt text -> {"last": snap, "clean": snap}  (latest fresh reply / latest fresh reply without a raise)
-    trivial = True
-
-    with SeqTracer(k, [seams.src("operon_ai/topology/loops.py")], 20_000) as tr:
+        k.key = [plan["config"], plan["prompts"], plan["ops"]]
+    with SeqTracer(k, SCOPE, 20_000) as tr:
         for op in plan["ops"]:
-            name = op[0]
-            if name == "clock":
-                if op[1] == "ttl":
-                    if op[2] >= len(prompts):
-                        continue
-                    o = orig.get(prompts[op[2]], {}).get("clean")
-                    if o is None:
-                        continue
-                    target = o["t"] + cfg["ttl"] + op[3]
-                    k.fault("clock_boundary")
-                else:
-                    target = CLOCK.now + op[2]
-                dt = target - CLOCK.now
-                set_clock(target)
-                k.fault("clock_backward" if dt < 0 else "clock_forward")
-                k.ev("clock", us(CLOCK.now))
-                continue
-            if name == "clear":
-                out = call(loop.clear_cache, tracer=tr)
-                k.ev("clear", out.brief())
-                if not out.ok:
-                    k.violation("returns", out.kind, "clear_cache")
-                    return
-                # the statement says nothing about clear_cache: it is only a perturbation of the history
-                continue
-
-            pi = op[1]
-            if pi >= len(prompts):
-                continue
-            prompt = prompts[pi]
-            ex.script, asr.script = op[2], op[3]
-            ex.gave = asr.gave = None
-            c_e, c_a = ex.calls, asr.calls
-            now = CLOCK.now
-            out = call(loop.run, prompt, tracer=tr)
-            asked_e, asked_a = ex.calls - c_e, asr.calls - c_a
-            ez, ay = (ex.gave if asked_e else None), (asr.gave if asked_a else None)
-            fresh = bool(asked_e or asked_a)
-            site = f"{logic}:{cls(ez)}x{cls(ay)}"
-            raised = [v for v in (ez, ay) if v and v.startswith("raise:")]
-            if raised:
-                k.probe("agent_raised")
-            if any(v is not None and cls(v) == "UNKNOWN" for v in (ez, ay)):
-                k.probe("unknown_verdict")
-            if cfg["agents"] == "real" and asked_a and ay == "FAILURE" and ez != "FAILURE":
-                k.probe("second_agent_starved")
-                k.fault("budget_starve")
-
-            if out.kind == "deadlock":
-                k.ev("run", [pi, ez, ay, "deadlock"])
-                k.violation("returns", "self_deadlock", logic, "; ".join(out.exc.chain))
+            if not w.seq_op(op, tr):
                 return
-            if out.kind == "step_budget":
-                k.ev("run", [pi, ez, ay, "step_budget"])
-                k.violation("returns", "no_return_within_step_budget", logic)
-                return
-            if out.kind == "raised":
-                k.ev("run", [pi, ez, ay, "raised", type(out.exc).__name__])
-                if raised:
-                    k.violation("table", "agent_exception_escaped", site, repr(out.exc)[:160])
-                else:
-                    k.violation("returns", f"raised:{type(out.exc).__name__}", site, repr(out.exc)[:160])
-                return
-            res = out.value
-            blocked = bool(res.blocked)
-            tok = tok_of(res)
-            flagged = bool(getattr(res, "cached", False))
-            snap = {"blocked": blocked, "success": bool(res.success), "action": str(res.action), "token": tok}
-            k.ev("run", [pi, ez, ay, fresh, flagged, snap])
-            if not (logic == "AND" and ez in EXEC_PERMITS and ay == "PERMIT") and fresh:
-                trivial = False
-            want_hash = hashlib.sha256(prompt.encode()).hexdigest()[:16]
-
-            if fresh:
-                # ---- clause: table
-                if not blocked:
-                    k.probe("passed")
-                    if not sat(logic, ez, ay):
-                        k.violation("table", "passed_without_keys", site,
-                                    f"prompt={prompt[:30]!r} executor={ez} assessor={ay} action={res.action}")
-                    elif any(v is None or cls(v) in ("UNKNOWN", "DEFER") for v in (ez, ay)):
-                        k.probe("unknown_or_defer_beside_a_pass")
-                # ---- clause: token
-                if tok is not None:
-                    k.probe("token_attached")
-                    if ay != "PERMIT":
-                        k.violation("token", "token_without_permit", site, f"token={tok}")
-                    if tok[0] != want_hash:
-                        k.violation("token", "token_unbound", "fresh", f"{tok[0]} != sha256({prompt[:30]!r})[:16]={want_hash}")
-                    if tok[1] != issuer:
-                        k.violation("token", "wrong_issuer", "fresh", f"{tok[1]!r} != {issuer!r}")
-                # ---- clause: cache (a reply that consulted agents is not a cache reply)
-                if flagged:
-                    k.violation("cache", "agents_consulted_for_cached_reply", "flag")
-                o = orig.get(prompt)
-                if o and o.get("clean") and us(now) - us(o["clean"]["t"]) >= ttl_us and cfg["cache"]:
-                    k.probe("ttl_expired_reconsult")
-                rec = dict(snap, t=now, ay=ay, sat=sat(logic, ez, ay))
-                slot = orig.setdefault(prompt, {})
-                slot["last"] = rec
-                if not raised:
-                    slot["clean"] = rec
-                    if cfg["cache"]:
-                        for other, so in orig.items():
-                            if other != prompt and other[:8] == prompt[:8] and so.get("clean"):
-                                k.probe("prefix_sharing_prompts_cached")
-                continue
-
-            # ---- no agent was consulted: this is a cache reply
-            k.probe("cache_hit")
-            slot = orig.get(prompt, {})
-            cands = [c for c in (slot.get("last"), slot.get("clean")) if c is not None]
-            if not cfg["cache"]:
-                k.violation("cache", "reply_without_consulting_agents_while_cache_disabled", "disabled")
-            if not cands:
-                if not blocked:
-                    k.violation("table", "passed_without_keys", f"{logic}:nonexnone",
-                                f"prompt={prompt[:30]!r} never answered before, no agent consulted, action={res.action}")
-                k.violation("cache", "cached_reply_without_original", "lookup",
-                            f"prompt={prompt[:30]!r} flagged_cached={flagged} reply={snap}")
-                if tok is not None and tok[0] != want_hash:
-                    k.violation("token", "token_unbound", "cached", f"{tok[0]} != sha256({prompt[:30]!r})[:16]={want_hash}")
-                continue
-            match = [c for c in cands if all(c[f] == snap[f] for f in ("blocked", "success", "action", "token"))]
-            if not match:
-                c = cands[-1]
-                field = next(f for f in ("blocked", "action", "success", "token") if c[f] != snap[f])
-                k.violation("cache", "cache_verdict_differs", field,
-                            f"prompt={prompt[:30]!r} original={ {f: c[f] for f in ('blocked', 'success', 'action', 'token')} } cached={snap}")
-                match = cands
-            else:
-                if cfg["agents"] == "fake" and sat(logic, op[2], op[3]) != match[-1]["sat"]:
-                    k.probe("cache_hit_script_changed")
-            if not blocked and not any(c["sat"] for c in match):
-                k.violation("table", "passed_without_keys", f"{logic}:cached", f"prompt={prompt[:30]!r}")
-            if tok is not None:
-                if not any(c["ay"] == "PERMIT" for c in match):
-                    k.violation("token", "token_without_permit", f"{logic}:cached", f"token={tok}")
-                if tok[0] != want_hash:
-                    k.violation("token", "token_unbound", "cached", f"{tok[0]} != sha256({prompt[:30]!r})[:16]={want_hash}")
-                if tok[1] != issuer:
-                    k.violation("token", "wrong_issuer", "cached", f"{tok[1]!r} != {issuer!r}")
-            age = min(us(now) - us(c["t"]) for c in match)
-            if age > ttl_us:
-                k.violation("cache", "stale_after_ttl", "ttl", f"age={age}us ttl={ttl_us}us")
-            elif age > 0 and ttl_us - age <= 1_000_000:
-                k.probe("ttl_just_below_hit")
-
-    if not trivial:
+    if not w.trivial:
         k.nontrivial = True
+
+
+def _run_threads(plan, k):
+    cfg = plan["config"]
+    sched = Sched(k, cfg.get("strategy"), switches=plan.get("switches"),
+                  rng=derive(plan.get("_seedpath", "replay"), "sched"), scope=SCOPE, max_steps=40_000)
+    w = World(plan, k, sched)
+    k.probe("threads_run")
+    k.key = ["threads", {x: y for x, y in cfg.items() if x != "strategy"}, plan["prompts"], plan.get("pre"),
+             plan["tasks"], plan.get("post")]
+    prompts = plan["prompts"]
+
+    # ---- sequential pre-phase (scheduler not started: sequential semantics), judged like the sequential family
+    with SeqTracer(k, SCOPE, 20_000) as tr:
+        for op in plan.get("pre") or []:
+            if not w.seq_op(op, tr):
+                return
+
+    # ---- overlapping phase
+    recs = []
+
+    def body(ti, ops):
+        def f():
+            me = sched.cur
+            for oi, op in enumerate(ops):
+                if op[0] == "clock":
+                    if op[2] > 0:                         # forward only while requests overlap
+                        set_clock(CLOCK.now + op[2])
+                        k.fault("clock_forward")
+                        k.ev("clock", us(CLOCK.now))
+                    continue
+                if op[0] == "clear":
+                    me.op = "clear_cache"
+                    out = call(w.loop.clear_cache)
+                    me.op = None
+                    k.ev("clear", out.brief())
+                    if out.kind != "ok":
+                        raise HarnessError(f"clear_cache ended {out.kind} inside a scheduled task")
+                    continue
+                if op[1] >= len(prompts):
+                    continue
+                k.ev("inv", [ti, oi, op[1]])
+                me.op = "run"
+                rec = w.invoke(op)
+                me.op = None
+                rec["task"] = ti
+                out = rec["out"]
+                k.ev("ret", [ti, oi, rec["ez"], rec["ay"], rec["fresh"], rec.get("snap", out.brief())])
+                if out.kind not in ("ok", "raised"):
+                    raise HarnessError(f"unexpected outcome {out.kind} inside a scheduled task")
+                if not w.returned(rec, "threads"):
+                    continue
+                recs.append(rec)
+                if rec["fresh"]:
+                    # table and token are clauses about this request and its own agents' verdicts only
+                    w.judge_fresh(rec, check_flag=False)
+        return f
+
+    for ti, ops in enumerate(plan["tasks"]):
+        sched.spawn(body(ti, ops), name=f"t{ti}")
+    sched.run()
+    plan["switches"] = sched.switches
+    k.steps += sched.steps
+    k.nontrivial = sched.preempt_in_op > 0
+    for t in sched.tasks:
+        if t.exc is not None:
+            if isinstance(t.exc, HarnessError):
+                raise t.exc
+            raise HarnessError(f"task {t.name} died: {t.exc!r}")
+    v = sched.verdict
+    if v and v[0] == "deadlock":
+        k.violation("returns", "deadlock", "run", " | ".join(v[1]))
+        return
+    if v and v[0] == "step_budget":
+        k.violation("returns", "no_return_within_step_budget", "threads")
+        return
+
+    # ---- cache replies of the overlapping phase: the original is any fresh reply to the same prompt that was
+    #      invoked before the cache reply returned (pre-phase originals included)
+    for a in recs:
+        for b in recs:
+            if a["task"] < b["task"] and a["inv"] < b["ret"] and b["inv"] < a["ret"]:
+                k.probe("overlapping_requests_same_prompt" if a["prompt"] == b["prompt"]
+                        else "overlapping_requests_different_prompts")
+    for rec in recs:
+        if rec["fresh"]:
+            continue
+        cands = list(w.orig.get(rec["prompt"], [])) + [c for c in recs if c["fresh"] and c["prompt"] == rec["prompt"]
+                                                        and c["inv"] < rec["ret"]]
+        if any(c.get("task") is not None and c["ret"] > rec["inv"] for c in cands):
+            k.probe("cache_hit_on_concurrent_original")
+        # the clock only moved forward in this phase: an original that had returned before this request was
+        # invoked is at least t_inv - t_ret old; one still in flight has no known age (0)
+        w.judge_cached(rec, cands, lambda c, r=rec: (us(r["t_inv"]) - us(c["t_ret"])) if c["ret"] < r["inv"] else 0)
+
+    # ---- after quiescence: every candidate original of the overlapping phase may be what the cache holds
+    for rec in recs:
+        if rec["fresh"]:
+            w.orig.setdefault(rec["prompt"], []).append(rec)
+    with SeqTracer(k, SCOPE, 20_000) as tr:
+        for op in plan.get("post") or []:
+            if not w.seq_op(op, tr):
+                return
+            if op[0] == "run" and op[1] < len(prompts) and w.cur_req["main"].asked_e:
+                k.probe("post_probe_fresh")
